@@ -260,10 +260,10 @@ struct SymIO {
 };
 
 struct PacketPlan { int mode = 0; int prevflag = 0, nextflag = 0; int unused_pct = 10; int zero_pct = 40; };   // generate mode only
-struct Block { int W = 0, n = 0; bool prevlong = false, nextlong = false; std::vector<Vec> ch; bool ok = false; size_t bits_used = 0; std::string note; int used_floors = 0; bool res_nonzero = false; bool illcond = false; };
+struct Block { int W = 0, n = 0; bool prevlong = false, nextlong = false; std::vector<Vec> ch; bool ok = false; size_t bits_used = 0; std::string note; int used_floors = 0; bool res_nonzero = false; bool illcond = false; bool eop_in_residue = false; bool eop_in_floor = false; int mode = 0; };
 
 struct Synth {
-  const Setup &s; bool illcond = false; std::string illwhy;
+  const Setup &s; bool illcond = false; std::string illwhy; bool walk_only = false;   // walk_only: parse the packet (bit accounting) without synthesising audio
   void ill(const char *w) { if (!illcond) illwhy = w; illcond = true; }
     // set when a floor 0 curve or a magnitude makes the error bound uninformative
   explicit Synth(const Setup &st) : s(st) {}
@@ -412,7 +412,7 @@ struct Synth {
     out.ok = false; illcond = false; illwhy.clear();
     if (io.bits(1, 0) != 0 || io.r.eop) { out.note = "not an audio packet"; return false; }
     int nm = (int)s.modes.size(); int mode = (int)io.bits(ilog(nm - 1), io.gen ? pl->mode : 0); if (io.r.eop || mode >= nm) { out.note = "bad mode"; return false; }
-    const Mode &mo = s.modes[mode]; out.W = mo.blockflag; out.n = s.bs(out.W); int pf = 0, nf = 0;
+    const Mode &mo = s.modes[mode]; out.mode = mode; out.W = mo.blockflag; out.n = s.bs(out.W); int pf = 0, nf = 0;
     if (out.W) { pf = (int)io.bits(1, io.gen ? pl->prevflag : 0); nf = (int)io.bits(1, io.gen ? pl->nextflag : 0); if (io.r.eop) { out.note = "eop in window flags"; return false; } }
     out.prevlong = pf; out.nextlong = nf;
     const Mapping &mp = s.mappings[mo.mapping]; int C = s.channels, half = out.n / 2;
@@ -423,6 +423,7 @@ struct Synth {
       nores[c] = !usedf; if (io.r.eop) { eop_in_floor = true; break; }
     }
     out.ch.assign(C, Vec()); for (int c = 0; c < C; c++) out.ch[c].assign(out.n);
+    out.eop_in_floor = eop_in_floor;
     if (eop_in_floor) { out.ok = true; out.note = "eop in floor: zero block"; out.bits_used = io.gen ? io.w.n : io.r.pos; return true; }
     std::vector<char> nr2 = nores;
     for (size_t i = 0; i < mp.mag.size(); i++) if (!nr2[mp.mag[i]] || !nr2[mp.ang[i]]) nr2[mp.mag[i]] = nr2[mp.ang[i]] = 0;
@@ -431,7 +432,7 @@ struct Synth {
       std::vector<Vec *> bundle; std::vector<char> dnd; for (int c = 0; c < C; c++) if (mp.mux[c] == sm) { bundle.push_back(&res[c]); dnd.push_back(nr2[c]); }
       residue(io, s.residues[mp.sres[sm]], half, bundle, dnd);
     }
-    io.r.eop = false;   // end of packet during residue decode is nominal
+    out.eop_in_residue = io.r.eop; io.r.eop = false;   // end of packet during residue decode is nominal
     for (int i = (int)mp.mag.size() - 1; i >= 0; i--) {
       Vec &M = res[mp.mag[i]], &A = res[mp.ang[i]];
       for (int k = 0; k < half; k++) {
@@ -442,7 +443,7 @@ struct Synth {
         M.v[k] = nm2; A.v[k] = na; M.e[k] = em + ea + EPSF * fabs(nm2) + slack; A.e[k] = em + ea + EPSF * fabs(na) + slack;
       }
     }
-    for (int c = 0; c < C; c++) {
+    for (int c = 0; c < C && !walk_only; c++) {
       Vec X; X.assign(half);
       if (!nores[c]) for (int k = 0; k < half; k++) { double fv = floorc[c].v[k], rv = res[c].v[k]; X.v[k] = fv * rv; X.e[k] = fabs(fv) * res[c].e[k] + fabs(rv) * floorc[c].e[k] + floorc[c].e[k] * res[c].e[k] + EPSF * fabs(fv * rv); }
       Vec y; imdct(out.n, X, y);
